@@ -41,6 +41,14 @@ def maskJ (t : Cx K) (e : J2 K) : J2 K := e.scale t
 /-- … of a Jones-vector wavefront. -/
 def maskV (t : Cx K) (e : V2 K) : V2 K := ⟨e.x * t, e.y * t⟩
 
+/-- `Wavefront.total_power` of a Jones-matrix wavefront with input Stokes vector `s`: `Σ I_i w_i`, `I` the intensity of
+`J C(S) Jᴴ`. -/
+def powerJ [Zero K] [Div K] [OfNat K 2] (e : Nat → J2 K) (s : S4 K) (w : Nat → K) (n : Nat) : K :=
+  sumRange n fun i => (jonesStokes (e i) s).i * w i
+
+/-- … of a Jones-vector wavefront. -/
+def powerV (e : Nat → V2 K) (w : Nat → K) (n : Nat) : K := sumRange n fun i => (vecStokes (e i)).i * w i
+
 /-- `np.dot(E.conj() * weights, mode)` -/
 def fibreAmp (E m : Nat → Cx K) (w : Nat → K) (n : Nat) : Cx K :=
   sumRange n fun i => Cx.smul (w i) (E i).conj * m i
